@@ -92,7 +92,7 @@ def generate(seed, tier):
             if b - a <= 5:
                 op['n'] = max(op['n'], 40 * (b - a + 1))
         elif kind == 'rand_list':
-            op['list'] = ro.choice(['L', 'S', 'ONE', 'lit', 'hash1', 'hash2', 'hash1', 'hash2'])
+            op['list'] = ro.choice(['L', 'S', 'ONE', 'lit', 'hash1', 'hash2', 'hash1', 'hash2', 'VL'])
         elif kind == 'shuffle':
             op['list'] = ro.choice(['L', 'S', 'ONE', 'E', 'lit', 'hash1', 'hash2'])
             if ro.random() < 0.06:
@@ -126,6 +126,7 @@ def generate(seed, tier):
 def execute(case, ctx):
     names = {k: lang.dec_value(v) for k, v in case['world']['names'].items()}
     names['FULL'] = list(range(10000))
+    names['VL'] = [10 ** 5000, [1], 10 ** 4400 + 1]      # elements too long to be turned into text (nobody asked for text)
     names['FULL1'] = list(range(9999))
     from ..seams import make_cache
     parser = boot.fresh_parser(make_cache(case['world'].get('cache')))
